@@ -3,7 +3,7 @@
    the scan of Model/CRC.v.  Soundness and completeness of the per-slice counts are the scan theorems
    of Props/C16.v (every counted slice carries the bytes of a window matching its checksum pair;
    every cleanly present slice - in particular every slice of an undamaged file - is found). *)
-From Gopar Require Import Model.Base Model.CRC Model.GoPath Model.FS Model.Par2 Proofs.Par2Facts Proofs.Par2Verify.
+From Gopar Require Import Model.Base Model.CRC Model.GoPath Model.FS Model.Par2 Proofs.Par2Facts Proofs.Par2Verify Proofs.Par2Clean.
 Open Scope N_scope.
 
 (* "no repair needed" is reported only when every protected file is present with the recorded
@@ -42,3 +42,19 @@ Print Assumptions C03_possible_iff.
 Theorem C03_no_panic : forall md5 ix st p, fst (par2_verify md5 ix st) <> Panic p.
 Proof. exact verify_no_panic. Qed.
 Print Assumptions C03_no_panic.
+
+(* COMPLETE: if every protected file is present with content consistent with the archive (recorded
+   length, both hashes, and the slice checksum list) and the file ids are distinct, Verify counts no
+   unusable slice and no misplaced file and reports that no repair is needed - it never misses a slice
+   of an undamaged file, for every archive, slice size and content (duplicate slices included) *)
+Theorem C03_intact_means_clean : forall md5 ix fs ds st1,
+  load_all md5 ix (io_init fs []) = (Ok ds, st1) ->
+  NoDup (map di_id (d_rec (ds_dec ds))) ->
+  (forall info, In info (d_rec (ds_dec ds)) ->
+     exists data, fs_lookup fs (file_path ix (di_name info)) = Some data /\ wf_bytes data /\
+       N.of_nat (length data) = di_len info /\ md5 data = di_hash info /\ hash16k md5 data = di_h16 info /\
+       di_pairs info = pairs_of md5 (N.to_nat (d_slice (ds_dec ds))) data) ->
+  c_unusable (shard_counts ds) = 0%nat /\ c_misplaced (shard_counts ds) = 0%nat /\
+  repair_needed (shard_counts ds) = false.
+Proof. exact intact_files_clean. Qed.
+Print Assumptions C03_intact_means_clean.
